@@ -14,7 +14,7 @@ VARIABLES sess, cur, bg, nid, owner, st, tab, unread, ufb, fb, rsv, cons, srv, o
           pend    \* [TCallers -> [op, s, ph, out]]   ph: "idle" | "called" | "done"
 
 SP == INSTANCE StreamPool WITH Callers <- TCallers, Cap <- TCap, N <- TN, MaxSess <- 1, MaxOwed <- 1, MaxUnread <- 1,
-                               DropCloses <- FALSE, GetChecksUnread <- FALSE, PutChecksWbuf <- FALSE,
+                               DropCloses <- TRUE, GetChecksUnread <- TRUE, PutChecksWbuf <- TRUE,
                                Feat <- {}
 
 spvars == <<sess, cur, bg, nid, owner, st, tab, unread, ufb, fb, rsv, cons, srv, owed, holder, ring, leaked, late, wbuf, wstale>>
